@@ -93,7 +93,12 @@ func (cl *CachedLocations) Count() int {
 // cache.
 //
 // A cached location is expired if it is not pending and its
-// expiration time is before the current time.
+// expiration time is before the current time.  An entry that is not
+// pending and never got a location (its load failed) is expired, too.
+//
+// 'Pending' counts the holders: every Open adds one and every Release
+// takes one away, so a Release by one holder does not expire a
+// location that somebody else is still using.
 //
 // Assumes a lock for the CachedLocations.
 func (cls *CachedLocations) expire(ctx *Context, sys *System, name string, released bool) (*Location, bool) {
@@ -104,9 +109,13 @@ func (cls *CachedLocations) expire(ctx *Context, sys *System, name string, relea
 	dead := false
 	if have {
 		cl.Lock()
-		cl.Pending = !released
+		if !released {
+			cl.Pending++
+		} else if 0 < cl.Pending {
+			cl.Pending--
+		}
 		Log(INFO, ctx, "CachedLocations.expire", "name", name, "cached", "exists")
-		if cl.Pending || cl.Expires.After(time.Now()) {
+		if 0 < cl.Pending || (cl.Location != nil && cl.Expires.After(time.Now())) {
 			Log(INFO, ctx, "CachedLocations.expire", "name", name, "cached", "live")
 			loc = cl.Location
 		} else {
@@ -123,6 +132,9 @@ func (cls *CachedLocations) expire(ctx *Context, sys *System, name string, relea
 // This function the top-level location cache API, and it uses
 // 'CachedLocations.Get()' to do the real work.
 //
+// Every Open, successful or not, should be followed by a Release for
+// the same name when the caller is done with the location.
+//
 // TTL can be 'Never', 'Forever', or anything in between.
 func (cls *CachedLocations) Open(ctx *Context, sys *System, name string, check bool) (*Location, error) {
 	Log(INFO, ctx, "CachedLocations.Open", "name", name)
@@ -133,20 +145,27 @@ func (cls *CachedLocations) Open(ctx *Context, sys *System, name string, check b
 	var err error
 	if loc == nil || dead {
 		Log(INFO, ctx, "CachedLocations.Open", "name", name, "cached", "empty")
-		ctl := sys.Control()
-		ttl := ctl.LocationTTL
+		// An entry without a location (its load failed and a
+		// holder has not released it yet) is used again, so all
+		// holders of a name share one entry and its count.
+		cl := cls.locs[name]
+		if cl == nil {
+			ctl := sys.Control()
+			ttl := ctl.LocationTTL
 
-		expires := EndOfTime
-		if ttl != Forever {
-			expires = time.Now().Add(ttl)
-		}
-		Log(INFO, ctx, "CachedLocations.Open", "name", name, "expires", expires.String())
-		cl := &CachedLocation{
-			Expires: expires,
-		}
+			expires := EndOfTime
+			if ttl != Forever {
+				expires = time.Now().Add(ttl)
+			}
+			Log(INFO, ctx, "CachedLocations.Open", "name", name, "expires", expires.String())
+			cl = &CachedLocation{
+				Expires: expires,
+				Pending: 1,
+			}
 
-		if ttl != Never || ctl.CachePending {
-			cls.locs[name] = cl
+			if ttl != Never || ctl.CachePending {
+				cls.locs[name] = cl
+			}
 		}
 
 		// The clever (?) move here: now we only need a lock
@@ -196,7 +215,7 @@ func (cls *CachedLocations) Release(ctx *Context, sys *System, name string) erro
 type CachedLocation struct {
 	sync.Mutex
 	Expires time.Time
-	Pending bool
+	Pending int // Number of holders: Opens that have not been Released yet.
 	*Location
 }
 
@@ -284,12 +303,9 @@ func (cl *CachedLocation) get(ctx *Context, sys *System, name string, checkExist
 	}
 	cl.Unlock()
 
-	// Remove from cache if location does not exist so the cache does not explode
-	if nil == cl.Location {
-		sys.CachedLocations.Lock()
-		delete(sys.CachedLocations.locs, name)
-		sys.CachedLocations.Unlock()
-	}
+	// An entry without a location is removed from the cache when
+	// its last holder releases it (see 'expire'), so the cache
+	// does not explode.
 
 	return loc, err
 }
@@ -790,6 +806,7 @@ func (sys *System) CreateLocation(ctx *Context, location string) (bool, error) {
 	atomic.AddUint64(&sys.stats.TotalCalls, uint64(1))
 
 	loc, err := sys.findLocation(ctx, location, false)
+	defer sys.releaseLocation(ctx, location)
 	ctx.SetLoc(loc)
 
 	var exists bool
@@ -860,8 +877,11 @@ func legalFactWithout(ctx *Context, fact string, prop string) error {
 
 // GetLocation implements core.LocationProvider.
 //
-// Just calls 'findLocation(,,false)'.
+// Just calls 'findLocation(,,false)'.  A LocationProvider has no way to
+// say when it is done with the location, so the location is released
+// right away and not held.
 func (sys *System) GetLocation(ctx *Context, name string) (*Location, error) {
+	defer sys.releaseLocation(ctx, name)
 	return sys.findLocation(ctx, name, false)
 }
 
